@@ -212,6 +212,14 @@ def write_library(lib, d):
     ydecl.append({"decl": "int sum_u16(const uint16_t *a0 +rank(1), int a1 +implied(size(a0)))"})
     ydecl.append({"decl": "int sum_u8(const uint8_t *a0 +rank(1), int a1 +implied(size(a0)))"})
     ydecl.append({"decl": "double sum_d(const double *a0 +rank(1), int a1 +implied(size(a0)))"})
+    # std::string values with a NUL byte inside: alone and as one element of a result tuple they keep their whole length
+    hpp.append("int get_record(int n, std::string &rec); void two_records(std::string &a, std::string &b); std::string record_only(int n);")
+    cpp.append('int get_record(int n, std::string &rec) { std::printf("LOG get_record %d\\n", n); rec = std::string("key\\0val", 7); return 41; }')
+    cpp.append('void two_records(std::string &a, std::string &b) { std::printf("LOG two_records\\n"); a = std::string("k\\0", 2); b = "plain"; }')
+    cpp.append('std::string record_only(int n) { std::printf("LOG record_only %d\\n", n); return std::string("a\\0b\\0", 4); }')
+    ydecl.append({"decl": "int get_record(int n, std::string &rec +intent(out))"})
+    ydecl.append({"decl": "void two_records(std::string &a +intent(out), std::string &b +intent(out))"})
+    ydecl.append({"decl": "std::string record_only(int n)"})
     hpp.append("class Cls { public:")
     cdecl = []
     for k, f in enumerate(lib["cls"]):
@@ -593,7 +601,10 @@ def run(ctx):
                  ("sum_u16", [{"__iter__": "deque", "items": [7, 8, 9]}], {}, ["LOG sum_u16 3 24", "RET 41"]),
                  ("sum_d", [{"__iter__": "gen", "items": [0.5, 1.5]}], {}, ["LOG sum_d 2 2", "RET 1.25"]),
                  ("vsum", [{"__iter__": "set1", "items": [6]}, ], {2: 1}, ["LOG vsum 1 6 1 1", "RET 41"]),
-                 ("sum_u16", [], {0: {"__iter__": "range", "items": [10, 13]}}, ["LOG sum_u16 3 33", "RET 41"])]
+                 ("sum_u16", [], {0: {"__iter__": "range", "items": [10, 13]}}, ["LOG sum_u16 3 33", "RET 41"]),
+                 ("get_record", [7], {}, ["LOG get_record 7", "RET " + repr((41, "key\x00val"))]),
+                 ("two_records", [], {}, ["LOG two_records", "RET " + repr(("k\x00", "plain"))]),
+                 ("record_only", [3], {}, ["LOG record_only 3", "RET " + repr("a\x00b\x00")])]
         inp = "\n".join(json.dumps({"name": n, "method": m, "pos": pos, "kw": {("zz" if k == "zz" else "a%d" % k): v for k, v in kw.items()}})
                         for (n, m, _, pos, kw, _) in queries + [(n_, False, None, p_, k_, "extra") for (n_, p_, k_, _) in extra]) + "\n"
         p = subprocess.run([vlib.PY, os.path.join(d, "runner.py"), d], input=inp, stdout=subprocess.PIPE, stderr=subprocess.PIPE,
